@@ -1061,10 +1061,15 @@ pub fn gen_entries<S: Clone>(
 ) -> Vec<(Label, Vec<S>)> {
     let mut out: Vec<(Label, Vec<S>)> = Vec::new();
     let mut all: Vec<S> = Vec::new();
+    // one database in 25 has a label with several hundred signatures (more than any 8-bit
+    // position could address), most of them close variants of each other in one index bucket
+    let big_label = if r.chance(1, 25) { Some(r.usize(labels.max(1))) } else { None };
     for li in 0..labels {
         // a label without any `sig` line is legal p0f text (all its signatures commented out);
         // it must not disturb the positions the index records for the labels after it
-        let n = if labels > 1 && r.chance(1, 9) { 0 } else { r.range(1, max_sigs.max(1) as u64) as usize };
+        let big = big_label == Some(li);
+        let n = if big { 257 + r.usize(160) } else if labels > 1 && r.chance(1, 9) { 0 } else { r.range(1, max_sigs.max(1) as u64) as usize };
+        let (dup_pct, comp_pct) = if big { (2, 85) } else { (dup_pct, comp_pct) };
         let mut sigs: Vec<S> = Vec::new();
         for _ in 0..n {
             let s = if !all.is_empty() && r.chance(dup_pct, 100) {
